@@ -51,6 +51,9 @@ def main() -> int:
             items.append(m)
     for d in sorted((ROOT / "seeded").glob("*/meta.json")):
         meta = json.loads(d.read_text())
+        if meta.get("stale_since"):
+            print(f"{d.parent.name}: skipped (stale: {meta['stale_since'][:60]}...)")
+            continue
         items.append({"id": d.parent.name, "property": meta["property"], "patch": str(d.parent / "patch.diff"),
                       "expect": meta.get("expect", "violation")})
     bad = 0
